@@ -26,6 +26,8 @@ def run(tier, seed):
     cap = 160 if quick else 2048
     prof = gen.profile(max_len=10)
     builds = harness.make_many(tc, [seed * 1000 + 300 + i for i in range(nmod)], prof, atoms=10, composites=10)
+    from ..asn import shapes
+    builds.append(harness.make(tc, seed * 1000 + 398, prof, module_fn=lambda g: shapes.build2("SH2")))
     states = set()
     for b in builds:
         if b.exe is None:
@@ -36,7 +38,7 @@ def run(tier, seed):
         cases, meta = [], {}
         cid = 0
         for tname, t in b.mod.types.items():
-            for v in b.gen.values(t, 2 if quick else 4):
+            for v in (shapes.values2(b.mod, tname, rng, quick) if b.mod.name == "SH2" else b.gen.values(t, 2 if quick else 4)):
                 try:
                     tree = enc.tree(t, v)
                 except der.Unsupported:
